@@ -88,6 +88,12 @@ func (p *Parser) loadFile(path string, child *file) (*file, error) {
 }
 
 func (p *Parser) loadFileAndParents(path string, child *file) ([]*file, error) {
+	for c := child; c != nil; c = c.child {
+		if c.path == path {
+			return nil, fmt.Errorf("%s: %w", path, ErrCircularRef)
+		}
+	}
+
 	f, err := p.loadFile(path, child)
 	if err != nil {
 		return nil, err
